@@ -40,6 +40,8 @@ Next ==
     /\ l' = l + 1
     /\ IF Tr[l].op = "reset" THEN nbad' = nbad /\ dirty' = FALSE
        ELSE IF dirty THEN UNCHANGED <<nbad, dirty>>
+       \* the process died inside a call of this script (tools/vlib.py turns the death into a trap event)
+       ELSE IF Tr[l].op = "trap" THEN nbad' = nbad + 1 /\ dirty' = TRUE /\ PrintT(<<"DEV", l, "crash", "-">>)
        ELSE LET vs == Judge(Tr[l]) IN
             /\ nbad' = nbad + Len(vs)
             /\ dirty' = (Len(vs) > 0)
